@@ -27,6 +27,9 @@ def race_events(output, path):
                 # mosproxy frame on top, called from otter core
                 return len(fr) >= 2 and "/repo/internal/cache/" in fr[0] and any("maypok86/otter" in x for x in fr[1:4])
             frames = re.findall(r"^\s+(/repo/\S+\.go:\d+)", body, re.M)
+            if not any("/zzverif/" not in x and "zz_verif" not in x for x in frames):
+                skipped += 1        # a race between harness goroutines only: a harness bug, not a verdict
+                continue
             top = next((x for x in frames if "/zzverif/" not in x), frames[0] if frames else "?")
             n += 1
             f.write(json.dumps({"ev": "race", "top": top.replace("/repo/", ""), "frames": frames[:8], "seq": 0, "t": 0}) + "\n")
@@ -47,7 +50,7 @@ def run(ctx):
     if race:
         n, sk = race_events(out, own)
         ctx.extra["race_reports"] = n
-        ctx.extra["race_reports_inside_otter_callbacks_skipped"] = sk
+        ctx.extra["harness_only_race_reports"] = sk
     lines = open(own).read().splitlines()
     ctx.sample({"ownership_events": [json.loads(x) for x in lines[100:104]]})
     ctx.validate("OwnershipTrace", own, keyfn, describe=describe, timeout=3000, require_events=2000)
@@ -57,7 +60,7 @@ def run(ctx):
     routerfam.validate(ctx, part, only=["Inv_C04_", "Inv_C03_Header", "Inv_C07_StoreOwnKey", "Inv_C10_ExactQuestion", "Unconsumable"], require_events=3000, timeout=3000)
     # transports: cancellations and connection failures (C06 / C05 style runs) with the pool hook active
     xdrv = vf.build_driver("xportdrv", race=race)
-    for mode, n in (("reuse", 1500), ("pipe", 1500), ("dohcancel", 1200)):
+    for mode, n in (("reuse", 1500), ("pipe", 1500), ("dohcancel", 1200)) + ((("fault", 0), ("life", 0)) if race else ()):
         t = ctx.path("x-%s.ndjson" % mode)
         o = ctx.driver(xdrv, ["-mode", mode, "-n", n, "-out", t, "-own", ctx.path("own-%s.ndjson" % mode)], timeout=1800,
                        ok_codes=(0, 66), env={"GORACE": "halt_on_error=0 exitcode=0"})
@@ -65,7 +68,7 @@ def run(ctx):
         if race:
             n, sk = race_events(o, ot)
             ctx.extra["race_reports"] = ctx.extra.get("race_reports", 0) + n
-        ctx.validate("OwnershipTrace", ot, keyfn, describe=describe, timeout=3000, require_events=100)
+        ctx.validate("OwnershipTrace", ot, keyfn, describe=describe, timeout=3000, require_events=100 if mode not in ("fault", "life") else 1)
     ctx.assumptions += [
         "TLA+ decides the ownership discipline of recycled objects from get / release / poison events; 'free of data races' on arbitrary memory is judged by the Go race detector (thorough tier), used as a sensor whose reports become trace events without a specification action",
         "normal get/release events are recorded for 1 in 16 objects (typestate per object is independent); anomalies found by the pool hook (release of a buffer not held, broken poison at quarantine exit, a held buffer handed out) are always recorded",
